@@ -50,6 +50,7 @@ type Contract struct {
 	MayPanic    bool    // panic/exit behaviour unspecified
 	NoReturn    bool
 	Keeps       []string
+	LoopAll     []*Clause // invariants of every loop of the function (auto contracts)
 	Dispatch    bool
 	IgnoreDefer bool
 	Loops       map[int]*LoopSpec
